@@ -112,3 +112,229 @@ Qed.
 
 Theorem len_correct s : len_im s = Ok (len_spec s).
 Proof. reflexivity. Qed.
+
+(* ------------------------------------------------------------------ *)
+(* string.byte                                                          *)
+
+Lemma index_char s i : 1 <= i -> i <= len s -> len s < maxint ->
+  index s (wrap (i - 1)) = Ok (char_at s i).
+Proof.
+  intros H1 H2 H3. unfold maxint in H3.
+  rewrite wrap_id by (unfold in64, minint, maxint; lia).
+  unfold index. replace ((0 <=? i - 1) && (i - 1 <? len s)) with true
+    by (symmetry; rewrite andb_true_iff, Z.leb_le, Z.ltb_lt; lia).
+  reflexivity.
+Qed.
+
+Lemma byte_loop_chars s n : forall i,
+  str_ok s -> 1 <= i -> i + Z.of_nat n - 1 <= len s ->
+  byte_loop n s i = Ok (map (char_at s) (zseq i n)).
+Proof.
+  induction n; intros i Hs H1 H2; [reflexivity|].
+  cbn [byte_loop zseq map]. pose proof Hs as Hs'. unfold str_ok in Hs'.
+  assert (Hn : Z.of_nat (S n) = Z.of_nat n + 1) by lia.
+  rewrite index_char; [|lia|lia|exact Hs]. cbn [bind].
+  assert (Hw : wrap (i + 1) = i + 1).
+  { apply wrap_id. unfold in64, minint, maxint, str_ok, maxint in *. lia. }
+  rewrite Hw, IHn by (assumption || lia). reflexivity.
+Qed.
+
+Theorem byte_correct s i j :
+  str_ok s -> oin64 i -> oin64 j -> byte_im s i j = Ok (byte_spec s i j).
+Proof.
+  intros Hs Hi Hj. unfold byte_im, byte_spec, sub_spec.
+  rewrite maxpos_max, minpos_min.
+  pose proof (len_nonneg s) as Hl.
+  set (i0 := match i with Some i1 => i1 | None => 1 end).
+  assert (Ei : match i with Some ii => norm_pos s ii | None => 1 end = posrel (len s) i0).
+  { subst i0. destruct i as [ii|]; [apply norm_pos_posrel; assumption|reflexivity]. }
+  rewrite Ei.
+  assert (Hi0 : in64 i0).
+  { subst i0. destruct i; [assumption|]. unfold in64, minint, maxint. lia. }
+  assert (Ej : match j with Some jj => norm_pos s jj | None => posrel (len s) i0 end
+               = posrel (len s) match j with Some j1 => j1 | None => i0 end).
+  { destruct j as [jj|]; [apply norm_pos_posrel; assumption|reflexivity]. }
+  rewrite Ej. clear Ei Ej.
+  set (i' := Z.max 1 (posrel (len s) i0)).
+  set (j' := Z.min (len s) (posrel (len s) match j with Some j1 => j1 | None => i0 end)).
+  unfold zrange.
+  destruct (Z.to_nat (j' - i' + 1)) eqn:En; [reflexivity|].
+  rewrite <- En. apply byte_loop_chars; [assumption|lia|lia].
+Qed.
+
+(* ------------------------------------------------------------------ *)
+(* string.char                                                          *)
+
+Lemma char_loop_ok vals : forall k,
+  forallb (fun x => (0 <=? x) && (x <=? 255)) vals = true -> char_loop vals k = Ok vals.
+Proof.
+  induction vals as [|x t IH]; intros k H; [reflexivity|].
+  cbn [forallb] in H. apply andb_true_iff in H. destruct H as [Hx Ht].
+  apply andb_true_iff in Hx. destruct Hx as [H0 H255]. apply Z.leb_le in H0, H255.
+  cbn [char_loop].
+  assert (E : (x <? 0) || (x >? 255) = false).
+  { apply orb_false_iff; split; [apply Z.ltb_ge; lia|]. rewrite Z.gtb_ltb. apply Z.ltb_ge. lia. }
+  rewrite E, IH by assumption. reflexivity.
+Qed.
+
+Lemma char_loop_err vals : forall k,
+  forallb (fun x => (0 <=? x) && (x <=? 255)) vals = false -> exists n, char_loop vals k = Err (ERange n).
+Proof.
+  induction vals as [|x t IH]; intros k H; [discriminate|].
+  cbn [forallb] in H. cbn [char_loop].
+  destruct ((x <? 0) || (x >? 255)) eqn:E; [eexists; reflexivity|].
+  apply orb_false_iff in E. destruct E as [E1 E2].
+  apply Z.ltb_ge in E1. rewrite Z.gtb_ltb in E2. apply Z.ltb_ge in E2.
+  replace ((0 <=? x) && (x <=? 255)) with true in H
+    by (symmetry; apply andb_true_iff; split; apply Z.leb_le; lia).
+  cbn [andb] in H. destruct (IH (k + 1) H) as [n Hn]. rewrite Hn. eexists; reflexivity.
+Qed.
+
+(* char succeeds exactly when the manual says so, with the manual's result *)
+Theorem char_correct vals :
+  match char_spec vals with
+  | Some b => char_im vals = Ok b
+  | None => exists n, char_im vals = Err (ERange n)
+  end.
+Proof.
+  unfold char_spec, char_im.
+  destruct (forallb _ vals) eqn:E; [apply char_loop_ok|apply char_loop_err]; assumption.
+Qed.
+
+(* ------------------------------------------------------------------ *)
+(* string.upper / lower                                                 *)
+
+Theorem upper_lower_bytewise um s :
+  is_ascii s = true ->
+  upper_im um s = Ok (upper_spec s) /\ lower_im um s = Ok (lower_spec s) /\
+  length (upper_spec s) = length s /\ length (lower_spec s) = length s.
+Proof.
+  intros H. unfold upper_im, lower_im, upper_spec, lower_spec. rewrite H.
+  rewrite !map_length. auto.
+Qed.
+
+(* The code as it stands is not byte-wise outside ASCII: whatever
+   unicode.ToUpper does, as long as it leaves U+FFFD alone (it does), the
+   one-byte string "\xff" becomes three bytes. *)
+Theorem upper_refuted um :
+  um rune_error = rune_error ->
+  exists s, upper_im um s <> Ok (upper_spec s) /\
+            (forall r, upper_im um s = Ok r -> length r = 3%nat) /\ length s = 1%nat.
+Proof.
+  intros H. exists [255]. unfold upper_im. cbn [is_ascii forallb Z.ltb Z.compare Pos.compare Pos.compare_cont andb].
+  cbn [length map_runes]. cbn [decode_rune]. cbn [Z.ltb Z.leb Z.compare Pos.compare Pos.compare_cont andb].
+  rewrite H. cbv. repeat split; try congruence.
+  intros r E. inversion E. reflexivity.
+Qed.
+
+(* ------------------------------------------------------------------ *)
+(* string.rep and plain find: the code as it stands deviates           *)
+
+Theorem rep_refuted :
+  exists s n, in64 n /\ str_ok s /\ rep_im s n None = Err (ERange 2) /\ rep_spec s n None = [].
+Proof.
+  exists [120], (-1). unfold in64, str_ok. vm_compute. intuition congruence.
+Qed.
+
+Theorem find_plain_refuted :
+  exists s p init, str_ok s /\ in64 init /\
+    find_plain_im s p (Some init) = Ok (Some (3, 3)) /\ find_spec s p (Some init) = Some (6, 6).
+Proof.
+  exists [97;98;99;97;98;99], [99], 4. unfold in64, str_ok. vm_compute. intuition congruence.
+Qed.
+
+(* ------------------------------------------------------------------ *)
+(* string.rep for n >= 0: the overflow tests are exact                  *)
+
+Lemma mul_check L n : 0 <= L < 2^63 -> 1 <= n < 2^63 ->
+  (Z.quot (wrap (L * n)) n =? L) = (L * n <? 2^63).
+Proof.
+  intros HL Hn.
+  destruct (L * n <? 2^63) eqn:E.
+  - apply Z.ltb_lt in E. rewrite wrap_id by (unfold in64, minint, maxint; nia).
+    rewrite Z.quot_mul by lia. apply Z.eqb_refl.
+  - apply Z.ltb_ge in E. apply Z.eqb_neq.
+    pose proof (wrap_in64 (L * n)) as Hw. unfold in64, minint, maxint in Hw.
+    set (W := wrap (L * n)) in *.
+    assert (L >= 1) by nia.
+    destruct (Z_lt_le_dec W 0).
+    + assert (Z.quot W n <= 0).
+      { replace W with (- (- W)) by lia. rewrite Z.quot_opp_l by lia.
+        pose proof (Z.quot_pos (- W) n ltac:(lia) ltac:(lia)). lia. }
+      lia.
+    + assert (Z.quot W n < L) by (apply Z.quot_lt_upper_bound; nia). lia.
+Qed.
+
+Lemma repeat_sep_copies s n : sep_copies s [] (S n) = repeat_bytes s (S n).
+Proof.
+  induction n; [cbn; now rewrite app_nil_r|].
+  change (sep_copies s [] (S (S n))) with (s ++ [] ++ sep_copies s [] (S n)).
+  rewrite IHn. reflexivity.
+Qed.
+
+Lemma rep_loop_sep_copies s sep n : s ++ rep_loop n s sep = sep_copies s sep (S n).
+Proof.
+  induction n; [cbn; now rewrite app_nil_r|].
+  change (sep_copies s sep (S (S n))) with (s ++ sep ++ sep_copies s sep (S n)).
+  rewrite <- IHn. reflexivity.
+Qed.
+
+Definition osep_ok (o : option bytes) : Prop := match o with Some x => str_ok x | None => True end.
+
+(* For every count n >= 0: if the result fits a string the Go code returns
+   the manual's result; otherwise it raises the overflow error.  (n < 0 is
+   the recorded defect, see rep_refuted.) *)
+Theorem rep_correct_nonneg s n sep :
+  str_ok s -> osep_ok sep -> in64 n -> 0 <= n ->
+  (rep_len s n sep < 2^63 -> rep_im s n sep = Ok (rep_spec s n sep)) /\
+  (2^63 <= rep_len s n sep -> rep_im s n sep = Err EOverflow).
+Proof.
+  intros Hs Hsep Hn H0. unfold str_ok, in64, minint, maxint in *.
+  pose proof (len_nonneg s) as Hl.
+  unfold rep_im, rep_spec, rep_len.
+  replace (n <? 0) with false by (symmetry; apply Z.ltb_ge; lia).
+  destruct (n =? 0) eqn:E0.
+  { apply Z.eqb_eq in E0. subst n. cbn. split; [reflexivity|lia]. }
+  apply Z.eqb_neq in E0.
+  replace (n <=? 0) with false by (symmetry; apply Z.leb_gt; lia).
+  destruct (n =? 1) eqn:E1.
+  { apply Z.eqb_eq in E1. subst n. cbn [Z.to_nat Pos.to_nat Pos.iter_op Nat.add sep_copies].
+    split; [reflexivity|]. destruct sep as [x|]; cbn [osep_ok] in Hsep; unfold str_ok, maxint in Hsep; cbn [len length] ; lia. }
+  apply Z.eqb_neq in E1.
+  assert (Hn2 : 2 <= n) by lia.
+  destruct (Z.to_nat n) as [|k] eqn:Ek; [lia|].
+  destruct sep as [x|].
+  - cbn [osep_ok] in Hsep. unfold str_ok, maxint in Hsep. pose proof (len_nonneg x) as Hx.
+    rewrite (wrap_id (n - 1)) by (unfold in64, minint, maxint; lia).
+    rewrite (Z.mul_comm n (len s)), (Z.mul_comm (n - 1) (len x)).
+    rewrite (mul_check (len s) n) by lia.
+    rewrite (mul_check (len x) (n - 1)) by lia.
+    replace (Z.to_nat (n - 1)) with k by lia.
+    rewrite rep_loop_sep_copies.
+    destruct (len s * n <? 2^63) eqn:A; cbn [negb orb].
+    + apply Z.ltb_lt in A. rewrite (wrap_id (len s * n)) by (unfold in64, minint, maxint; nia).
+      destruct (len x * (n - 1) <? 2^63) eqn:B; cbn [negb orb].
+      * apply Z.ltb_lt in B. rewrite (wrap_id (len x * (n - 1))) by (unfold in64, minint, maxint; nia).
+        destruct (len s * n + len x * (n - 1) <? 2^63) eqn:C.
+        -- apply Z.ltb_lt in C. rewrite wrap_id by (unfold in64, minint, maxint; nia).
+           replace (len s * n + len x * (n - 1) <? 0) with false by (symmetry; apply Z.ltb_ge; nia).
+           split; [reflexivity|lia].
+        -- apply Z.ltb_ge in C.
+           replace (wrap (len s * n + len x * (n - 1)) <? 0) with true.
+           ++ split; [lia|reflexivity].
+           ++ symmetry. apply Z.ltb_lt. unfold wrap.
+              replace (len s * n + len x * (n - 1) + 2^63) with ((len s * n + len x * (n - 1) - 2^63) + 1 * 2^64) by lia.
+              rewrite Z.mod_add by lia. rewrite Z.mod_small by nia. lia.
+      * apply Z.ltb_ge in B. split; [nia|reflexivity].
+    + apply Z.ltb_ge in A. split; [nia|reflexivity].
+  - rewrite (mul_check (len s) n) by lia. cbn [len length]. rewrite Z.mul_0_r, Z.add_0_r.
+    rewrite (Z.mul_comm n (len s)).
+    destruct (len s * n <? 2^63) eqn:A; cbn [negb].
+    + apply Z.ltb_lt in A. split; [intros _|lia]. rewrite repeat_sep_copies. reflexivity.
+    + apply Z.ltb_ge in A. split; [lia|reflexivity].
+Qed.
+
+(* the hypotheses used by the theorems are satisfiable, extreme positions included *)
+Example hypotheses_satisfiable :
+  str_ok [97; 0; 255] /\ in64 minint /\ in64 maxint /\ oin64 (Some minint) /\ oin64 None /\ osep_ok (Some [44]).
+Proof. unfold str_ok, in64, oin64, osep_ok, str_ok. vm_compute. intuition congruence. Qed.
